@@ -674,3 +674,143 @@ func sortedLater(fn *ssa.Function, app *ssa.Call) bool {
 	}
 	return follow(app, 0)
 }
+
+// ---------------------------------------------------------------------------------------------------------------
+// Write sets: which world components a piece of code may write. Used to havoc, at a loop cut, only what the loop body can
+// change (instead of everything in the function's modifies clause). Any doubt => unknown => full havoc.
+
+func ifaceShortName(t types.Type) string {
+	s := types.TypeString(t, nil)
+	if i := strings.LastIndexAny(s, "./"); i >= 0 {
+		s = s[i+1:]
+	}
+	return s
+}
+
+func (p *Program) fnWrites(fn *ssa.Function, seen map[*ssa.Function]bool, resolve func(ssa.Value) *ssa.Function) (map[string]bool, bool) {
+	if fn == nil {
+		return nil, false
+	}
+	if seen[fn] {
+		return map[string]bool{}, true
+	}
+	seen[fn] = true
+	if c := p.contractFor(fn); c != nil && !c.Inline {
+		if c.ModAll {
+			return nil, false
+		}
+		ws := map[string]bool{}
+		for _, m := range c.Modifies {
+			if !strings.HasPrefix(m, "*") {
+				ws[m] = true
+			}
+		}
+		return ws, true
+	}
+	if fn.Blocks == nil {
+		// dependency without a body: cannot write this module's world unless it is handed something stateful
+		for _, prm := range fn.Params {
+			if isStateful(prm.Type()) {
+				// contexts are passed everywhere; only store-like / keeper-like parameters matter
+				ts := types.TypeString(prm.Type(), nil)
+				if strings.Contains(ts, "Store") || strings.HasSuffix(ts, "Keeper") {
+					return nil, false
+				}
+			}
+		}
+		return map[string]bool{}, true
+	}
+	ws := map[string]bool{}
+	for _, b := range fn.Blocks {
+		for _, ins := range b.Instrs {
+			w, ok := p.instrWrites(ins, seen, resolve)
+			if !ok {
+				return nil, false
+			}
+			for k := range w {
+				ws[k] = true
+			}
+		}
+	}
+	return ws, true
+}
+
+func (p *Program) instrWrites(ins ssa.Instruction, seen map[*ssa.Function]bool, resolve func(ssa.Value) *ssa.Function) (map[string]bool, bool) {
+	ci, ok := ins.(ssa.CallInstruction)
+	if !ok {
+		return nil, true
+	}
+	cc := ci.Common()
+	none := map[string]bool{}
+	if cc.IsInvoke() {
+		iname := ifaceShortName(cc.Value.Type())
+		m := cc.Method.Name()
+		switch {
+		case strings.Contains(iname, "KVStore") || iname == "Store" || strings.HasSuffix(iname, "Store"):
+			if m == "Set" || m == "Delete" {
+				if len(cc.Args) == 0 {
+					return nil, false
+				}
+				fam := p.resolveKeyFamily(cc.Args[0], 0)
+				if fam == "" {
+					return nil, false
+				}
+				return map[string]bool{fam: true}, true
+			}
+			return none, true
+		case strings.Contains(iname, "BankKeeper"):
+			if strings.HasPrefix(m, "Send") || strings.HasPrefix(m, "Mint") || strings.HasPrefix(m, "Burn") || strings.HasPrefix(m, "Delegate") || strings.HasPrefix(m, "Undelegate") {
+				return map[string]bool{"bal": true, "supply": true}, true
+			}
+			return none, true
+		case strings.Contains(iname, "AccountKeeper"):
+			return none, true
+		case strings.HasSuffix(iname, "Keeper"):
+			return map[string]bool{"bal": true, "supply": true}, true
+		case strings.Contains(iname, "Codec") || strings.Contains(iname, "Marshaler") || strings.Contains(iname, "Logger") || strings.Contains(iname, "Iterator") || iname == "error":
+			return none, true
+		}
+		for _, a := range cc.Args {
+			ts := types.TypeString(a.Type(), nil)
+			if strings.Contains(ts, "Store") || strings.HasSuffix(ts, "Keeper") {
+				return nil, false
+			}
+		}
+		return none, true
+	}
+	switch v := cc.Value.(type) {
+	case *ssa.Builtin:
+		return none, true
+	case *ssa.Function:
+		return p.fnWrites(v, seen, resolve)
+	case *ssa.MakeClosure:
+		if fn, ok := v.Fn.(*ssa.Function); ok {
+			return p.fnWrites(fn, seen, resolve)
+		}
+	default:
+		if resolve != nil {
+			if fn := resolve(cc.Value); fn != nil {
+				return p.fnWrites(fn, seen, resolve)
+			}
+		}
+	}
+	return nil, false
+}
+
+// loopWrites: the write set of the instructions of a loop body.
+func (p *Program) loopWrites(body map[*ssa.BasicBlock]bool, resolve func(ssa.Value) *ssa.Function) (map[string]bool, bool) {
+	ws := map[string]bool{}
+	seen := map[*ssa.Function]bool{}
+	for blk := range body {
+		for _, ins := range blk.Instrs {
+			w, ok := p.instrWrites(ins, seen, resolve)
+			if !ok {
+				return nil, false
+			}
+			for k := range w {
+				ws[k] = true
+			}
+		}
+	}
+	return ws, true
+}
